@@ -227,32 +227,25 @@ func (g *Gen) cond(t string, pending map[string][]string) []interface{} {
 		}
 		return []interface{}{cn, fns[g.pick(len(fns))], v, "atom"}
 	case "opt":
-		// the implementation cannot evaluate includes/excludes on optional
-		// columns (known finding, probed separately)
-		return []interface{}{cn, []string{"==", "!="}[g.pick(2)], v, "set"}
+		return []interface{}{cn, []string{"==", "!=", "includes", "excludes"}[g.pick(4)], v, "set"}
 	case "set":
 		a := v.([]interface{})
-		// == / != on multi-element or empty sets and excludes with several or
-		// no elements are known findings of the implementation (order
-		// sensitivity, nil vs empty, partial overlap), probed separately
-		if len(a) == 1 {
-			fn := []string{"==", "!=", "includes", "excludes"}[g.pick(4)]
-			shape := "set"
-			if g.chance(0.3) {
-				return []interface{}{cn, fn, a, "set1"}
-			}
-			return []interface{}{cn, fn, a, shape}
+		fn := []string{"==", "!=", "includes", "excludes"}[g.pick(4)]
+		if len(a) == 1 && g.chance(0.3) {
+			return []interface{}{cn, fn, a, "set1"}
 		}
-		return []interface{}{cn, "includes", a, "set"}
+		if g.chance(0.3) {
+			// another order of the same elements
+			b := make([]interface{}, len(a))
+			for i := range a {
+				b[i] = a[len(a)-1-i]
+			}
+			a = b
+		}
+		return []interface{}{cn, fn, a, "set"}
 	default:
 		a := v.([]interface{})
-		if len(a) == 0 {
-			return []interface{}{cn, "includes", a, "col"}
-		}
-		if len(a) == 1 {
-			return []interface{}{cn, []string{"==", "!=", "includes", "excludes"}[g.pick(4)], a, "col"}
-		}
-		return []interface{}{cn, []string{"==", "!=", "includes"}[g.pick(3)], a, "col"}
+		return []interface{}{cn, []string{"==", "!=", "includes", "excludes"}[g.pick(4)], a, "col"}
 	}
 }
 
